@@ -46,10 +46,54 @@ def _mk(n, tier):
 for _n, _tier in ((1, "quick"), (2, "quick"), (3, "quick"), (4, "quick"), (5, "thorough"), (6, "thorough")):
     _mk(_n, _tier)
 
+
+def window_claim(V, st, ds, off, t):
+    T = sum(ds[1:], ds[0])
+    m = (t - off) % T
+    lo, wins = 0, []
+    for i in range(len(ds)):
+        hi = lo + ds[i]
+        wins.append(V.And(lo <= m, m < hi, st is COL[i % 5]))
+        lo = hi
+    return V.Or(wins)
+
+
+def _mk_reconfigured(n, tier):
+    @obligation("C17", f"reconfigured.n{n}", tier=tier, functions=F + ["commonroad/scenario/traffic_light.py:TrafficLightCycle.time_offset",
+                                                                         "commonroad/scenario/traffic_light.py:TrafficLightCycle.cycle_elements"],
+                bounds=f"{n} cycle elements; the cycle is queried (so that every memoised table exists), then its offset and / or its durations are "
+                       "replaced through the public setters (old and new values symbolic, old offset possibly non-zero), then queried again")
+    def ob(V):
+        ds = [V.int(f"d{i}", 1) for i in range(n)]
+        off = V.int("offset", 0)
+        t0, t = V.int("t_before"), V.int("t")
+        cyc = TrafficLightCycle([TrafficLightCycleElement(COL[i % 5], ds[i]) for i in range(n)], off)
+        tl = TrafficLight(5, np.array([0.0, 0.0]), cyc)
+        V.prove("before the change: state of the window containing (t-offset) mod T", window_claim(V, tl.get_state_at_time_step(t0), ds, off, t0))
+        what = V.choice("change", 3)  # offset / durations / both
+        ds2, off2 = ds, off
+        if what in (0, 2):
+            off2 = V.int("new_offset", 0)
+            cyc.time_offset = off2
+        if what in (1, 2):
+            ds2 = [V.int(f"new_d{i}", 1) for i in range(n)]
+            cyc.cycle_elements = [TrafficLightCycleElement(COL[i % 5], ds2[i]) for i in range(n)]
+        V.prove("after the change: state of the window of the new cycle definition", window_claim(V, cyc.get_state_at_time_step(t), ds2, off2, t))
+        V.prove("after the change: TrafficLight agrees with its cycle", tl.get_state_at_time_step(t) is cyc.get_state_at_time_step(t))
+
+    return ob
+
+
+_mk_reconfigured(2, "quick")
+_mk_reconfigured(3, "quick")
+_mk_reconfigured(4, "thorough")
+
 _T = "commonroad.scenario.traffic_light:TrafficLightCycle."
 MUTANTS = [
     dict(name="argmax-off-by-one", target=_T + "get_state_at_time_step", old=") - 1\n", new=")\n"),
     dict(name="window-closed-right", target=_T + "get_state_at_time_step", old="time_step_mod < self", new="time_step_mod <= self"),
     dict(name="offset-not-subtracted", target=_T + "get_state_at_time_step", old="(time_step - self.time_offset) %", new="(time_step) %"),
+    dict(name="memo-table-never-invalidated", target=_T + "_invalidate_cycle_init_timesteps", old="            del self._cycle_init_timesteps", new="            pass",
+         only="reconfigured"),
     dict(name="cumsum-without-offset", target=_T + "cycle_init_timesteps", old="np.cumsum(durations) + self.time_offset", new="np.cumsum(durations)"),
 ]
